@@ -413,6 +413,57 @@ def check_sampler_wiring(chk, mcmc, peds, n_max, logf_of, base_of):
             if bad:
                 break
 
+    # ---- PedigreeCallingMCMC.fit -> mcmc_sampler: the model's own pedigree, parameters, log prior frequencies, options
+    from mchap.pedigree import classes as pcls
+    gm = pcls.PedigreeCallingMCMC.fit.__globals__
+    orig_m = gm["mcmc_sampler"]
+    sig_m = inspect.signature(orig_m.py_func)
+    for pi, P in enumerate(peds[:max(3, n_max // 4)]):
+        calls = []
+
+        def rec_m(*a, **kw):
+            d = dict(sig_m.bind(*a, **kw).arguments)
+            calls.append(d)
+            k = len(calls)
+            return np.full((int(d["n_steps"]), P["N"], P["mp"]), k, dtype=np.int16)
+        flat = pi % 3 == 0
+        st_name = "Gibbs" if pi % 2 == 0 else "Metropolis-Hastings"
+        n_ch, steps, anneal, swap = 1 + pi % 3, 6, 2 + pi % 2, bool(pi % 4)
+        init = np.where(P["state"] < 0, -1, P["state"]).astype(np.int16)
+        gm["mcmc_sampler"] = rec_m
+        try:
+            model = pcls.PedigreeCallingMCMC(sample_ploidy=P["ploidy"], sample_inbreeding=np.zeros(P["N"]), sample_parents=P["parents"],
+                                             gamete_tau=P["tau"], gamete_lambda=P["lam"], gamete_error=P["err"], haplotypes=P["haps"],
+                                             frequencies=None if flat else P["freqs"], steps=steps, annealing=anneal, chains=n_ch,
+                                             random_seed=3, step_type=st_name, swap_parental_alleles=swap)
+            tr = model.fit(P["reads"], P["counts"], initial=init)
+        finally:
+            gm["mcmc_sampler"] = orig_m
+        chk.count("fit-wiring")
+        chk.case(["fit-wiring", pi], True)
+        want_lf = np.log(np.full(P["n"], 1.0 / P["n"])) if flat else np.log(P["freqs"])
+        passed = {"sample_ploidy": P["ploidy"], "sample_parents": P["parents"], "gamete_tau": P["tau"], "gamete_lambda": P["lam"],
+                  "gamete_error": P["err"], "sample_read_dists": P["reads"], "sample_read_counts": P["counts"], "haplotypes": P["haps"],
+                  "sample_genotypes": init}
+        bad = None
+        if len(calls) != n_ch:
+            bad = "number of sampler runs (one per chain)"
+        for k, d in enumerate(calls):
+            for name, v in passed.items():
+                w = d.get(name)
+                if w is None or np.shape(w) != np.shape(v) or not np.array_equal(np.asarray(w), np.asarray(v), equal_nan=True):
+                    bad = name
+            lf = np.asarray(d.get("log_frequencies"))
+            if lf.shape != want_lf.shape or not np.allclose(lf, want_lf, rtol=1e-12, atol=0):
+                bad = "log_frequencies (log of the model's prior frequencies, flat when none are given)"
+            if int(d["n_steps"]) != steps or int(d["annealing"]) != anneal or int(d["step_type"]) != (0 if st_name == "Gibbs" else 1) \
+                    or bool(d["swap_parental_alleles"]) != swap:
+                bad = "n_steps / annealing / step_type / swap_parental_alleles"
+            if not (np.asarray(tr.genotypes[k]) == k + 1).all():
+                bad = "trace (not what the chains returned, chain by chain)"
+        if bad:
+            chk.violation("PedigreeCallingMCMC.fit hands mcmc_sampler a wrong " + bad, {**base_of(P), "what": bad}, "C18/sampler/fit")
+
 
 def run(tier, replay=None):
     from mchap.pedigree import mcmc, prior
@@ -765,13 +816,22 @@ def run(tier, replay=None):
         visits = []
         orig_np, orig_as = mcmc.np, mcmc.allele_step
         mcmc.np = _NP(orig_np, [], perm=np.array(perm))
-        mcmc.allele_step = lambda **kw: visits.append((int(kw["target_index"]), int(kw["allele_index"]), int(kw["step_type"])))
+        handed = []
+        mcmc.allele_step = lambda **kw: (visits.append((int(kw["target_index"]), int(kw["allele_index"]), int(kw["step_type"]))),
+                                         handed.append(kw))
         try:
             s2 = st.copy()
-            mcmc.sample_step.py_func(target_index=t, step_type=step_type, **step_args(P, s2, P["cache"]))
+            given = step_args(P, s2, P["cache"])
+            mcmc.sample_step.py_func(target_index=t, step_type=step_type, **given)
         finally:
             mcmc.np, mcmc.allele_step = orig_np, orig_as
         chk.count("sample_step")
+        wrong = sorted({k_ for kw in handed for k_, v in given.items() if kw.get(k_) is not v and not (
+            isinstance(v, np.ndarray) and isinstance(kw.get(k_), np.ndarray) and k_ not in ("sample_genotypes",) and v.shape == kw[k_].shape
+            and np.array_equal(v, kw[k_], equal_nan=v.dtype.kind == "f"))})
+        if wrong:
+            chk.violation("sample_step hands allele_step arguments that are not the ones it was called with: " + ", ".join(wrong),
+                          {**case, "arguments": wrong}, "C18/sample_step/arguments")
         if visits != [(t, x, step_type) for x in perm]:
             chk.violation("sample_step does not update every allele slot of the target exactly once in the shuffled order",
                           {**case, "shuffled_order": perm, "visited": visits}, "C18/sample_step/slots")
@@ -779,13 +839,21 @@ def run(tier, replay=None):
         visits = []
         orig_np, orig_ss = mcmc.np, mcmc.sample_step
         mcmc.np = _NP(orig_np, [], perm=np.array(permN))
-        mcmc.sample_step = lambda **kw: visits.append((int(kw["target_index"]), int(kw["step_type"])))
+        handed = []
+        mcmc.sample_step = lambda **kw: (visits.append((int(kw["target_index"]), int(kw["step_type"]))), handed.append(kw))
         try:
             s2 = st.copy()
-            mcmc.compound_step.py_func(step_type=step_type, **step_args(P, s2, P["cache"]))
+            given = step_args(P, s2, P["cache"])
+            mcmc.compound_step.py_func(step_type=step_type, **given)
         finally:
             mcmc.np, mcmc.sample_step = orig_np, orig_ss
         chk.count("compound_step")
+        wrong = sorted({k_ for kw in handed for k_, v in given.items() if kw.get(k_) is not v and not (
+            isinstance(v, np.ndarray) and isinstance(kw.get(k_), np.ndarray) and k_ not in ("sample_genotypes",) and v.shape == kw[k_].shape
+            and np.array_equal(v, kw[k_], equal_nan=v.dtype.kind == "f"))})
+        if wrong:
+            chk.violation("compound_step hands sample_step arguments that are not the ones it was called with: " + ", ".join(wrong),
+                          {**case, "arguments": wrong}, "C18/compound_step/arguments")
         if visits != [(x, step_type) for x in permN]:
             chk.violation("compound_step does not update every individual exactly once in the shuffled order",
                           {**case, "shuffled_order": permN, "visited": visits}, "C18/compound_step/targets")
